@@ -1,22 +1,57 @@
 /-
-C17 helper lemmas, part 2: the metadata file round trip and the invariant of the
-salt returned by `load_metadata_file`.  Core Lean only.
+C17 helper lemmas, part 2: the metadata file round trip (with the T0 obligations on the
+generated line formats, keys, join separator and split character) and the invariant of
+the salt returned by `load_metadata_file`.  Core Lean only.
 -/
-import Pdb.Proofs.C17Text
+import Pdb.Proofs.C17Gen
 
 namespace Pdb.C17
 
+/-! ### T0 obligations on the generated metadata literals -/
+
+/-- T0 obligation: the `version` / `salt` lines are `<key><split char>{}` for exactly the keys
+the loader compares with, the `col` line is `<prefix>{}<split char>{}` for the prefix the loader
+tests with `starts_with`. -/
+theorem metaLine_shape :
+    Gen.Text.metaVersionPieces = [Gen.Text.metaKeyVersion ++ [Gen.Text.metaSplitChar], []] ∧
+    Gen.Text.metaSaltPieces = [Gen.Text.metaKeySalt ++ [Gen.Text.metaSplitChar], []] ∧
+    Gen.Text.metaColPieces = [Gen.Text.metaColPrefix, [Gen.Text.metaSplitChar], []] := by decide
+
+/-- T0 obligation: the loader's key tests do not shadow each other: `salt` is not `version`,
+and no `col<i>` key can be `version` or `salt`. -/
+theorem metaKeys_distinct : Gen.Text.metaKeySalt ≠ Gen.Text.metaKeyVersion ∧
+    Gen.Text.metaColPrefix.isPrefixOf Gen.Text.metaKeyVersion = false ∧
+    Gen.Text.metaColPrefix.isPrefixOf Gen.Text.metaKeySalt = false := by decide
+
+/-- T0 obligation: the keys contain neither the split character nor a line break. -/
+theorem metaKeys_plain : Gen.Text.metaKeyVersion.all plainChar = true ∧
+    Gen.Text.metaKeySalt.all plainChar = true ∧ Gen.Text.metaColPrefix.all plainChar = true := by
+  decide
+
+/-- T0 obligation: the lines are joined with exactly the line terminator `BufRead::lines`
+splits at. -/
+theorem metaJoinSep_newline : Gen.Text.metaJoinSep = ['\n'] := by decide
+
+theorem joinWith_newline (ls : List Text) : joinWith Gen.Text.metaJoinSep ls = joinLines ls := by
+  rw [metaJoinSep_newline]
+  induction ls with
+  | nil => rfl
+  | cons l r ih =>
+    cases r with
+    | nil => rfl
+    | cons l2 r2 => simp only [joinWith, joinLines, ih, List.cons_append, List.nil_append]
+
 theorem not_mem_of_plain {t : Text} (h : t.all plainChar = true) :
-    '=' ∉ t ∧ '\n' ∉ t ∧ '\r' ∉ t :=
+    Gen.Text.metaSplitChar ∉ t ∧ '\n' ∉ t ∧ '\r' ∉ t :=
   ⟨not_mem_of_all h (by decide), not_mem_of_all h (by decide), not_mem_of_all h (by decide)⟩
 
 /-- A `key=value` line with plain key and value splits into exactly these two pieces. -/
 theorem splitChar_kv {k v : Text} (hk : k.all plainChar = true) (hv : v.all plainChar = true) :
-    splitChar '=' (k ++ '=' :: v) = [k, v] := by
+    splitChar Gen.Text.metaSplitChar (k ++ Gen.Text.metaSplitChar :: v) = [k, v] := by
   rw [splitChar_first _ (not_mem_of_plain hk).1, splitChar_absent (not_mem_of_plain hv).1]
 
 theorem cleanLine_kv {k v : Text} (hk : k.all plainChar = true) (hv : v.all plainChar = true) :
-    CleanLine (k ++ '=' :: v) := by
+    CleanLine (k ++ Gen.Text.metaSplitChar :: v) := by
   refine ⟨by simp, ?_, ?_⟩
   · intro h
     rcases List.mem_append.mp h with h | h
@@ -31,19 +66,39 @@ theorem cleanLine_kv {k v : Text} (hk : k.all plainChar = true) (hv : v.all plai
       · revert h; decide
       · exact (not_mem_of_plain hv).2.2 h
 
-theorem plain_colKey (i : Nat) : (t!"col" ++ dec i).all plainChar = true := by
+theorem versionLine_eq (version : Nat) : fmt Gen.Text.metaVersionPieces [dec version] =
+    Gen.Text.metaKeyVersion ++ Gen.Text.metaSplitChar :: dec version := by
+  rw [metaLine_shape.1]; simp [fmt]
+
+theorem saltLine_eq (salt : List Nat) : fmt Gen.Text.metaSaltPieces [hexEncode salt] =
+    Gen.Text.metaKeySalt ++ Gen.Text.metaSplitChar :: hexEncode salt := by
+  rw [metaLine_shape.2.1]; simp [fmt]
+
+theorem colLine_eq (i : Nat) (o : ColumnOptions) : colLine i o =
+    (Gen.Text.metaColPrefix ++ dec i) ++ Gen.Text.metaSplitChar :: asString o := by
+  unfold colLine
+  rw [metaLine_shape.2.2]; simp [fmt]
+
+theorem plain_colKey (i : Nat) : (Gen.Text.metaColPrefix ++ dec i).all plainChar = true := by
   simp only [List.all_append, plain_dec, Bool.and_true]
-  decide
+  exact metaKeys_plain.2.2
+
+/-- A key `col<i>` is neither `version` nor `salt`. -/
+theorem colKey_ne {i : Nat} {k : Text} (hk : Gen.Text.metaColPrefix.isPrefixOf k = false) :
+    Gen.Text.metaColPrefix ++ dec i ≠ k := by
+  intro h
+  have : Gen.Text.metaColPrefix.isPrefixOf k = true := by
+    rw [← h]; exact List.isPrefixOf_iff_prefix.mpr (List.prefix_append _ _)
+  rw [hk] at this
+  cases this
 
 theorem stepLine_col (st : MetaAcc) (i : Nat) (o : ColumnOptions) :
     stepLine st (colLine i o) = .ok { st with columns := st.columns ++ [o] } := by
-  unfold stepLine colLine
-  rw [splitChar_kv (plain_colKey i) (plain_asString o)]
-  have h1 : (t!"col" ++ dec i) ≠ t!"version" := by
-    intro h; simp at h
-  have h2 : (t!"col" ++ dec i) ≠ t!"salt" := by
-    intro h; simp at h
-  have h3 : (t!"col").isPrefixOf (t!"col" ++ dec i) = true :=
+  unfold stepLine
+  rw [colLine_eq, splitChar_kv (plain_colKey i) (plain_asString o)]
+  have h1 := colKey_ne (i := i) metaKeys_distinct.2.1
+  have h2 := colKey_ne (i := i) metaKeys_distinct.2.2
+  have h3 : Gen.Text.metaColPrefix.isPrefixOf (Gen.Text.metaColPrefix ++ dec i) = true :=
     List.isPrefixOf_iff_prefix.mpr (List.prefix_append _ _)
   simp only [h1, h2, h3, if_false, if_true, fromString_asString]
 
@@ -56,19 +111,19 @@ theorem foldLines_cols (st : MetaAcc) (i : Nat) (cols : List ColumnOptions) :
     simp
 
 theorem stepLine_version (st : MetaAcc) {version : Nat} (hv : version ≤ u32Max) :
-    stepLine st (t!"version=" ++ dec version) = .ok { st with version := version } := by
+    stepLine st (fmt Gen.Text.metaVersionPieces [dec version]) =
+      .ok { st with version := version } := by
   unfold stepLine
-  have : t!"version=" ++ dec version = t!"version" ++ '=' :: dec version := by simp
-  rw [this, splitChar_kv (by decide) (plain_dec version)]
+  rw [versionLine_eq, splitChar_kv metaKeys_plain.1 (plain_dec version)]
   simp only [if_true, parseUnsigned_dec hv]
 
 theorem stepLine_salt (st : MetaAcc) {salt : List Nat} (hl : salt.length = 32)
     (hb : ∀ b ∈ salt, b < 256) :
-    stepLine st (t!"salt=" ++ hexEncode salt) = .ok { st with salt := some salt } := by
+    stepLine st (fmt Gen.Text.metaSaltPieces [hexEncode salt]) =
+      .ok { st with salt := some salt } := by
   unfold stepLine
-  have : t!"salt=" ++ hexEncode salt = t!"salt" ++ '=' :: hexEncode salt := by simp
-  rw [this, splitChar_kv (by decide) (plain_hexEncode salt)]
-  have h1 : t!"salt" ≠ t!"version" := by decide
+  rw [saltLine_eq, splitChar_kv metaKeys_plain.2.1 (plain_hexEncode salt)]
+  have h1 := metaKeys_distinct.1
   simp only [h1, if_false, if_true, hexDecode_hexEncode hb, hl]
 
 theorem cleanLine_colLines (cols : List ColumnOptions) :
@@ -78,7 +133,7 @@ theorem cleanLine_colLines (cols : List ColumnOptions) :
   | cons o r ih =>
     intro i l h
     rcases List.mem_cons.mp h with h | h
-    · subst h; exact cleanLine_kv (plain_colKey i) (plain_asString o)
+    · subst h; rw [colLine_eq]; exact cleanLine_kv (plain_colKey i) (plain_asString o)
     · exact ih (i + 1) l h
 
 theorem cleanLine_metaLines (version : Nat) (salt : List Nat) (cols : List ColumnOptions) :
@@ -87,12 +142,10 @@ theorem cleanLine_metaLines (version : Nat) (salt : List Nat) (cols : List Colum
   unfold metaLines at hl
   rcases List.mem_cons.mp hl with hl | hl
   · subst hl
-    have : t!"version=" ++ dec version = t!"version" ++ '=' :: dec version := by simp
-    rw [this]; exact cleanLine_kv (by decide) (plain_dec _)
+    rw [versionLine_eq]; exact cleanLine_kv metaKeys_plain.1 (plain_dec _)
   rcases List.mem_cons.mp hl with hl | hl
   · subst hl
-    have : t!"salt=" ++ hexEncode salt = t!"salt" ++ '=' :: hexEncode salt := by simp
-    rw [this]; exact cleanLine_kv (by decide) (plain_hexEncode _)
+    rw [saltLine_eq]; exact cleanLine_kv metaKeys_plain.2.1 (plain_hexEncode _)
   · exact cleanLine_colLines cols 0 l hl
 
 /-- `load_metadata_file` reads back what `write_metadata_file_with_version` wrote, for
@@ -103,7 +156,7 @@ theorem decodeMeta_encodeMeta {version : Nat} (hv1 : Pdb.Gen.LAST_SUPPORTED_VERS
     decodeMeta (encodeMeta version salt cols) =
       .ok { salt := salt, version := version, columns := cols } := by
   unfold decodeMeta encodeMeta
-  rw [lines_joinLines (cleanLine_metaLines _ _ _)]
+  rw [joinWith_newline, lines_joinLines (cleanLine_metaLines _ _ _)]
   unfold metaLines
   simp only [foldLines, stepLine_version _ hv2, stepLine_salt _ hl hb, foldLines_cols]
   simp [Nat.not_lt.mpr hv1]
@@ -116,7 +169,7 @@ theorem decodeMeta_encodeMeta_old {version : Nat} (hv1 : version < Pdb.Gen.LAST_
   have hv2 : version ≤ u32Max := by
     simp only [Pdb.Gen.LAST_SUPPORTED_VERSION, u32Max] at *; omega
   unfold decodeMeta encodeMeta
-  rw [lines_joinLines (cleanLine_metaLines _ _ _)]
+  rw [joinWith_newline, lines_joinLines (cleanLine_metaLines _ _ _)]
   unfold metaLines
   simp only [foldLines, stepLine_version _ hv2, stepLine_salt _ hl hb, foldLines_cols]
   simp [hv1]
